@@ -303,3 +303,27 @@ PROPS["C13"] = dict(
     trusted_extra=["Coq.Floats.SpecFloat (binary_normalize, SFdiv_core_binary, binary_round_aux) as the "
                    "definition of correct rounding to binary64; checked against Rust's str::parse / Display by this run"],
 )
+
+
+def classify_c02(case, model, why):
+    if case[1].startswith("(crash") or "(crash)" in case[1].split("(log")[0]:
+        return dict(kind="failing-input", why="the implementation panicked on this input")
+    return dict(kind="no-failing-input-found",
+                why="no panic, but implementation and model differ (correspondence Eval.eval/Arith <-> interpreter broken): " + why)
+
+
+PROPS["C02"] = dict(
+    streams=["C02"],
+    compare=cmp_eval,
+    classify=classify_c02,
+    release_too=True,
+    gate_imports=EVAL_GATE + "From Cel.Proofs Require Import NoCrash.",
+    exhaustive=True,
+    exhaustive_note="all ordered pairs of the ~110-value boundary set (i64/u64 extremes, NaN, infinities, "
+                    "strings, bytes, lists, maps, durations and timestamps at chrono's limits, function "
+                    "values) under + - * / % applied directly to Value; plus generated programs (typed and "
+                    "untyped, depth <= 8, every operator, macro, built-in and literal form) over contexts "
+                    "holding those values - not exhaustive",
+    rule="a case is a (operator, value pair) or a (program, context); a program is non-trivial when it "
+         "contains at least two operator/call/macro characters; distinct by text and context",
+)
